@@ -1,1 +1,111 @@
-From DV Require Import Prelude.Base Model.Node.
+(* C19 — per-transaction and per-connection state is released; nothing grows with use
+   Statements copied from the proof files; each is closed by `exact`. *)
+From DV Require Prelude.Base Model.Ids Proofs.IdsP Model.Node Proofs.NodeD Proofs.NodeC.
+From Coq Require String List Lia Bool Arith ZArith.
+
+Module FromNodeD.
+Import DV.Prelude.Base DV.Model.Node DV.Proofs.NodeD.
+Import Coq.Strings.String.
+Import Coq.Lists.List Coq.micromega.Lia Coq.Bool.Bool Coq.Arith.Arith.
+Import ListNotations.
+Open Scope nat_scope.
+
+(* ---- invariant 7 (C19: retransmission windows) ---- *)
+Theorem C19_windows_bounded : forall n0 n, reach n0 n ->
+  (forall o l, List.In (o, l) (n_sent_answers n) -> List.length l <= g_rsize (n_cfg n)) /\
+  NoDup (List.map fst (n_sent_answers n)) /\
+  n_cfg n = n_cfg n0.
+Proof. exact NodeD.C19_windows_bounded. Qed.
+
+(* ---- invariant 6 (C19), under ce_guard ---- *)
+Theorem C19_waiting_hosts : forall n0 n, reach_g n0 n ->
+  forall h, List.In h (List.map fst (n_peer_waiting n)) ->
+  h <> ""%string /\ exists c, List.In c (n_conns n) /\ c_host c = h.
+Proof. exact NodeD.C19_waiting_hosts. Qed.
+
+Theorem C19_no_conns_no_tables : forall n0 n, reach_g n0 n -> n_conns n = [] ->
+  n_half_ready n = [] /\ n_socket_peers n = [] /\ n_peer_waiting n = [] /\
+  (forall p, List.In p (n_peers n) -> p_conn p = None).
+Proof. exact NodeD.C19_no_conns_no_tables. Qed.
+
+Theorem C13_closed_stays_closed : forall n0 n cid r c evs, reach n0 n -> get_conn n cid = Some c ->
+  let n' := fst (run (fst (close_conn n cid r)) evs) in
+  ~ List.In cid (List.map c_id (n_conns n')) /\ ~ List.In cid (n_half_ready n') /\ ~ List.In cid (n_socket_peers n').
+Proof. exact NodeD.C13_closed_stays_closed. Qed.
+
+(* ---- FINDING (C19): without clause (i), _peer_waiting leaks.  Peers b, c; an accepted connection
+   sends CER "b", an application request (filed under host b), then a second CER "c" (accepted on
+   the READY connection: its host identity becomes c); when the connection closes only the entry of
+   host c is dropped.  No connection is left, the entry of b stays for ever; c.connection dangles. *)
+Theorem C19_waiting_hosts_refuted :
+  exists n0 evs, wf_init_g n0 /\
+    let n := fst (run n0 evs) in
+    n_conns n = [] /\ n_half_ready n = [] /\ n_socket_peers n = [] /\
+    exists h, List.In h (List.map fst (n_peer_waiting n)) /\ h <> ""%string.
+Proof. exact NodeD.C19_waiting_hosts_refuted. Qed.
+
+(* ---- clause (iii) of the guard is needed (not affected by the repair): the gate of PeerConnection
+   lets everything through in state CONNECTING; an application request read from a connection whose
+   connect() is still in progress is filed under the empty host identity and is never dropped.  The
+   history satisfies clauses (i) and (ii). ---- *)
+Theorem C19_connecting_read_refuted :
+  exists n0 evs, wf_init_g n0 /\ cer_guard n0 evs /\
+    let n := fst (run n0 evs) in
+    n_conns n = [] /\ n_peer_waiting n = [(""%string, [(7%Z, 7%Z)])].
+Proof. exact NodeD.C19_connecting_read_refuted. Qed.
+End FromNodeD.
+
+Module FromNodeC.
+Import DV.Prelude.Base DV.Model.Ids DV.Proofs.IdsP DV.Model.Node DV.Proofs.NodeC.
+Local Open Scope Z_scope.
+
+(* C09: closing a connection drops every waiting list filed under its host identity *)
+Theorem C09_removed_on_close n cid r c :
+  get_conn n cid = Some c ->
+  forall l, ~ List.In (c_host c, l) (n_peer_waiting (remove_conn n cid r)).
+Proof. exact (@NodeC.C09_removed_on_close n cid r c). Qed.
+
+(* C10: an answer is handed to the blocked caller of the application that sent the request
+   (and to no other application), or reported as unexpected to that application when nobody is
+   blocked on it any more; an answer nobody asked for produces nothing.  In the first two
+   cases the record is dropped. *)
+Theorem C10_correlation n m :
+  (forall i a, aw_lookup n m = Some i -> List.nth_error (n_apps n) i = Some a ->
+     (mem_z (m_hbh m) (List.map fst (a_waiting a)) = true ->
+      exists n', recv_app_answer n m = (n', [OAnswerTo i m]) /\ aw_lookup n' m = None /\
+                 (exists a', List.nth_error (n_apps n') i = Some a' /\
+                             mem_z (m_hbh m) (List.map fst (a_waiting a')) = false) /\
+                 (forall j, j <> i -> List.nth_error (n_apps n') j = List.nth_error (n_apps n) j)) /\
+     (mem_z (m_hbh m) (List.map fst (a_waiting a)) = false ->
+      exists n', recv_app_answer n m = (n', [OUnexpected i m]) /\ aw_lookup n' m = None /\
+                 n_apps n' = n_apps n)) /\
+  (aw_lookup n m = None -> recv_app_answer n m = (n, [])).
+Proof. exact (@NodeC.C10_correlation n m). Qed.
+
+(* C10: a second copy of an answer is ignored *)
+Theorem C10_duplicate_ignored n m i a n1 o1 :
+  aw_lookup n m = Some i -> List.nth_error (n_apps n) i = Some a ->
+  recv_app_answer n m = (n1, o1) ->
+  (o1 = [OAnswerTo i m] \/ o1 = [OUnexpected i m]) /\ recv_app_answer n1 m = (n1, []).
+Proof. exact (@NodeC.C10_duplicate_ignored n m i a n1 o1). Qed.
+
+(* C09: once submitted, the pair is gone from that host's list, immediately and after the step *)
+Theorem C09_second_fails n a cid n1 :
+  route_answer n a = (Some cid, n1) ->
+  exists c, List.In c (n_conns n) /\ c_id c = cid /\
+            (forall l, List.In (c_host c, l) (n_peer_waiting n1) -> mem_zz (o_hbh a, o_e2e a) l = false) /\
+            forall ds i n' outs, step n ds (EAppAnswer i a) = (n', outs) ->
+                                 ~ pw_has (n_peer_waiting n') (c_host c) (o_hbh a, o_e2e a).
+Proof. exact (@NodeC.C09_second_fails n a cid n1). Qed.
+End FromNodeC.
+
+Print Assumptions FromNodeD.C19_windows_bounded.
+Print Assumptions FromNodeD.C19_waiting_hosts.
+Print Assumptions FromNodeD.C19_no_conns_no_tables.
+Print Assumptions FromNodeD.C13_closed_stays_closed.
+Print Assumptions FromNodeD.C19_waiting_hosts_refuted.
+Print Assumptions FromNodeD.C19_connecting_read_refuted.
+Print Assumptions FromNodeC.C09_removed_on_close.
+Print Assumptions FromNodeC.C10_correlation.
+Print Assumptions FromNodeC.C10_duplicate_ignored.
+Print Assumptions FromNodeC.C09_second_fails.
